@@ -297,6 +297,8 @@ def _mk():
         classes = list(c) if isinstance(c, (tuple, list)) else [c]
         unknown = False
         for cl in classes:
+            if isinstance(cl, ExtV) and cl.name == "builtins.object":
+                return True  # everything is an object
             r = classify(it, v, cl)
             if r is True:
                 return True
